@@ -3,24 +3,47 @@
 
   Two layers:
   * the laws as theorems about the specification `rwLearn` (`row_depends_only`,
-    `rename_equivariant`, `cue_perm`, `affine`, `linear_part`,
-    `lambda_homogeneous`, `beta2_zero`, `beta2_zero_seq`, `alpha_zero`,
-    `alpha_zero_cue`);
+    `rename_equivariant`, `cue_perm`, `event_perm`, `events_perm`, `affine`,
+    `linear_part`, `lambda_homogeneous`, `beta2_zero`, `beta2_zero_seq`,
+    `alpha_zero`, `alpha_zero_cue`);
   * the laws as theorems about the IMPLEMENTATION MODELS (PyndlProofs/LawsModels):
     each relates two or three runs of the model of `dict_ndl` (`dict_*`) resp.
-    of `ndl.ndl` (`ndl_*`: counting, id maps, chunk files, either kernel method,
-    labels) and says that the runs succeed and their results are related —
-    `*_row_depends_only`, `*_rename_equivariant`, `*_affine`,
-    `*_lambda_homogeneous`, `*_alpha_zero…`, `*_beta2_zero`.  They are obtained
-    from the first layer through `dictNdl_eq_spec` / `ndlModel_eq_spec` /
-    `ndlModel_continue_eq_spec`; `dict_transport` is the transport lemma for
-    `dict_ndl` in the direction "whatever the model returns is `rwLearn`".
+    of `ndl.ndl` (`ndl_*`) and says that the runs succeed and their results are
+    related.  They are obtained from the first layer through `dictNdl_eq_spec` /
+    `ndlCall_eq_spec` / `ndlCall_continue_eq_spec`; `dict_transport` is the
+    transport lemma for `dict_ndl` ("whatever the model returns is `rwLearn`").
+
+  The `ndl_*` laws are about the CALL `ndlCall` (what the driver evaluates;
+  counting, id maps, chunk files, either kernel method, labels, and the
+  zero-event `IOError`).  Their hypotheses, all on the inputs:
+    `hne`   at least one event (on zero events the call raises `IOError`; the
+            earlier statements were on `ndlModel` without `hne`, so e.g.
+            `ndl_lambda_homogeneous … [] []` asserted success where the code raises);
+    `hfile` `FileEvents`: what an event file can hold (C01 header);
+    `hcfg`  `CfgOK`, `hp` the policy accepts the events, `hfit` 32-bit limits;
+    `hnd…`  given weights have duplicate-free labels (`ndl_affine`,
+            `ndl_alpha_beta2_zero`, `ndl_beta2_zero_seq`; the model reads a
+            repeated label at its FIRST position, Python's `OrderedDict` at its
+            LAST — given cues `['a','a']` the model updates the first `a`, the
+            code the last; the earlier statements lacked this).
+  Their conclusions state the LABELS of every result as well (from scratch the
+  names in first-occurrence order, continued the given labels followed by the
+  new names) — a law read through `LW.get` alone would also hold for a result
+  with missing or extra labels.
+  On the models: row locality, renaming, affine, λ-homogeneous, α = 0, β₂ = 0
+  (absent outcome AND the sequence form `ndl_beta2_zero_seq`), and the order
+  inside events `ndl_events_perm` (= `cue_perm` / `event_perm` / `events_perm`
+  lifted).  For `dict_ndl` the order law is `dict_events_perm`.
+  Spec-level only: `linear_part` (a λ = 0 run scaled; it is the `V`-summand of
+  `*_affine`), `beta2_zero` one step.
   The correspondence run ties the models to the code.
 -/
 import PyndlProofs.Laws
 import PyndlProofs.Dict
 import PyndlProofs.LawsModels
 import PyndlModel.Generated
+
+set_option linter.unusedVariables false
 
 namespace Pyndl.C13
 open Pyndl List
@@ -193,76 +216,160 @@ theorem dict_alpha_beta2_zero (p : DupPolicy) (α : ι → R) (β₁ β₂ lam :
   ⟨fun W h o c hc => dictNdl_alpha_zero_cue p α β₁ β₂ lam W₀ W es h o c hc,
     fun W h o ho => dictNdl_beta2_zero p α β₁ lam W₀ W es h o ho⟩
 
-/-! ## the laws as theorems about the model of `ndl.ndl` -/
+/-- **the order inside the events is irrelevant, `dict_ndl`** (`events_perm`
+    lifted): two event lists that agree event by event up to the order of the
+    cues and of the outcomes are accepted alike and give dicts denoting the same
+    weights -/
+theorem dict_events_perm (p : DupPolicy) (α : ι → R) (β₁ β₂ lam : R) (W₀ : WDict ι κ R)
+    (es₁ es₂ es₁' : List (Event ι κ)) (h : EventsPerm es₁ es₂) (hp : applyPolicyAll p es₁ = some es₁') :
+    ∃ A B, dictNdl p α β₁ β₂ lam W₀ es₁ = some A ∧ dictNdl p α β₁ β₂ lam W₀ es₂ = some B ∧
+      wdAbs A = wdAbs B := by
+  obtain ⟨es₂', hp₂, hperm⟩ := applyPolicyAll_perm_some p es₁ es₂ es₁' h hp
+  obtain ⟨A, a1, a2⟩ := Pyndl.dictNdl_eq_spec p α β₁ β₂ lam W₀ es₁ es₁' hp
+  obtain ⟨B, b1, b2⟩ := Pyndl.dictNdl_eq_spec p α β₁ β₂ lam W₀ es₂ es₂' hp₂
+  exact ⟨A, B, a1, b1, by rw [a2, b2, rwLearn_perm_events α β₁ β₂ lam _ es₁' es₂' hperm]⟩
 
-/-- **row locality, `ndl.ndl`**: two runs from scratch — possibly with different
+/-! ## the laws as theorems about the model of `ndl.ndl` — the CALL -/
+
+/-- **row locality, `ndl.ndl`**: two calls from scratch — possibly with different
     methods, chunk sizes and duplicate policies — over event files whose
     policy-processed events look the same from outcome `o` return the same
-    weights for `o`, at every cue -/
+    weights for `o`, at every cue; each result is labelled with the names of its
+    own file. -/
 theorem ndl_row_depends_only (cfg₁ cfg₂ : NdlCfg) (alpha β₁ β₂ lam : R)
     (es₁ es₂ es₁' es₂' : List (Event String String)) (o : String)
+    (hne₁ : es₁ ≠ []) (hne₂ : es₂ ≠ []) (hfile₁ : FileEvents es₁) (hfile₂ : FileEvents es₂)
     (hcfg₁ : CfgOK cfg₁ (countNames es₁).2.length) (hcfg₂ : CfgOK cfg₂ (countNames es₂).2.length)
     (hp₁ : applyPolicyAll cfg₁.policy es₁ = some es₁') (hp₂ : applyPolicyAll cfg₂.policy es₂ = some es₂')
     (hfit₁ : Fits32 es₁) (hfit₂ : Fits32 es₂) (hview : es₁'.map (view o) = es₂'.map (view o)) :
-    ∃ a b, ndlModel Generated.pyMagic Generated.pyVersion cfg₁ alpha β₁ β₂ lam none es₁ = .ok (a, es₁.length) ∧
-      ndlModel Generated.pyMagic Generated.pyVersion cfg₂ alpha β₁ β₂ lam none es₂ = .ok (b, es₂.length) ∧
+    ∃ a b, ndlCall Generated.pyMagic Generated.pyVersion cfg₁ alpha β₁ β₂ lam none es₁ = .ok (a, es₁.length) ∧
+      ndlCall Generated.pyMagic Generated.pyVersion cfg₂ alpha β₁ β₂ lam none es₂ = .ok (b, es₂.length) ∧
+      a.cues = (countNames es₁).1 ∧ a.outcomes = (countNames es₁).2 ∧
+      b.cues = (countNames es₂).1 ∧ b.outcomes = (countNames es₂).2 ∧
       ∀ c, a.get o c = b.get o c :=
-  ndlModel_row_depends_only _ _ (by decide) (by decide) cfg₁ cfg₂ alpha β₁ β₂ lam
-    es₁ es₂ es₁' es₂' o hcfg₁ hcfg₂ hp₁ hp₂ hfit₁ hfit₂ hview
+  ndlCall_row_depends_only _ _ (by decide) (by decide) cfg₁ cfg₂ alpha β₁ β₂ lam
+    es₁ es₂ es₁' es₂' o hne₁ hne₂ hcfg₁ hcfg₂ hp₁ hp₂ hfit₁ hfit₂ hview
 
 /-- **renaming equivariance, `ndl.ndl`**: renaming cues by an injection `f` and
-    outcomes by an injection `g` in the event file renames the returned matrix -/
+    outcomes by an injection `g` in the event file renames the returned matrix:
+    the labels of the second result are the renamed labels of the first in the
+    same order, and the values correspond.  (The legality of the renamed call —
+    `CfgOK`, `Fits32`, `FileEvents` — follows from that of the first and is no
+    longer a hypothesis.) -/
 theorem ndl_rename_equivariant (cfg : NdlCfg)
     (alpha β₁ β₂ lam : R) (f g : String → String) (hf : Function.Injective f) (hg : Function.Injective g)
-    (es es' : List (Event String String)) (hp : applyPolicyAll cfg.policy es = some es')
-    (hcfg : CfgOK cfg (countNames es).2.length)
-    (hcfg' : CfgOK cfg (countNames (es.map (fun e => ⟨e.cues.map f, e.outcomes.map g⟩))).2.length)
-    (hfit : Fits32 es) (hfit' : Fits32 (es.map (fun e => ⟨e.cues.map f, e.outcomes.map g⟩))) :
-    ∃ a b, ndlModel Generated.pyMagic Generated.pyVersion cfg alpha β₁ β₂ lam none es = .ok (a, es.length) ∧
-      ndlModel Generated.pyMagic Generated.pyVersion cfg alpha β₁ β₂ lam none
+    (es es' : List (Event String String)) (hne : es ≠ []) (hfile : FileEvents es)
+    (hp : applyPolicyAll cfg.policy es = some es')
+    (hcfg : CfgOK cfg (countNames es).2.length) (hfit : Fits32 es) :
+    ∃ a b, ndlCall Generated.pyMagic Generated.pyVersion cfg alpha β₁ β₂ lam none es = .ok (a, es.length) ∧
+      ndlCall Generated.pyMagic Generated.pyVersion cfg alpha β₁ β₂ lam none
         (es.map (fun e => ⟨e.cues.map f, e.outcomes.map g⟩)) = .ok (b, es.length) ∧
+      a.cues = (countNames es).1 ∧ a.outcomes = (countNames es).2 ∧
+      b.cues = a.cues.map f ∧ b.outcomes = a.outcomes.map g ∧
       ∀ o c, b.get (g o) (f c) = a.get o c :=
-  ndlModel_rename_equivariant _ _ (by decide) (by decide) cfg alpha β₁ β₂ lam f g hf hg es es' hp
-    hcfg hcfg' hfit hfit'
+  ndlCall_rename_equivariant _ _ (by decide) (by decide) cfg alpha β₁ β₂ lam f g hf hg es es' hne hp hcfg hfit
 
-/-- **affine in the initial weights, `ndl.ndl`**: three continued runs — from a
+/-- (lemma, not a property theorem — listed with the definitional ones) the renamed
+    file is again one an event file can hold -/
+theorem rename_file_events (f g : String → String) (es : List (Event String String)) (h : FileEvents es) :
+    FileEvents (es.map (fun e => ⟨e.cues.map f, e.outcomes.map g⟩)) := by
+  intro e he
+  obtain ⟨e0, he0, rfl⟩ := List.mem_map.mp he
+  exact ⟨by simpa using (h e0 he0).1, by simpa using (h e0 he0).2⟩
+
+/-- **affine in the initial weights, `ndl.ndl`**: three continued calls — from a
     labelled matrix `s` denoting `w + v` with λ, from `w` with λ, from `v` with
-    λ = 0 — satisfy `result(s) = result(w) + result(v)` at every pair of labels -/
+    λ = 0 — satisfy `result(s) = result(w) + result(v)` at every pair of names;
+    each result carries its given labels followed by the new names.
+    `hnd`: all given label lists are duplicate free. -/
 theorem ndl_affine (cfg : NdlCfg) (alpha β₁ β₂ lam : R)
     (w v s : LW R) (hs : ∀ o c, s.get o c = w.get o c + v.get o c)
-    (es es' : List (Event String String)) (hp : applyPolicyAll cfg.policy es = some es')
+    (hnd : (w.cues.Nodup ∧ w.outcomes.Nodup) ∧ (v.cues.Nodup ∧ v.outcomes.Nodup) ∧ (s.cues.Nodup ∧ s.outcomes.Nodup))
+    (es es' : List (Event String String)) (hne : es ≠ []) (hfile : FileEvents es)
+    (hp : applyPolicyAll cfg.policy es = some es')
     (hcw : CfgOK cfg (mergedOutcomes w es).length) (hcv : CfgOK cfg (mergedOutcomes v es).length)
     (hcs : CfgOK cfg (mergedOutcomes s es).length)
     (fw : Fits32With w es) (fv : Fits32With v es) (fs : Fits32With s es) :
-    ∃ rs rw rv, ndlModel Generated.pyMagic Generated.pyVersion cfg alpha β₁ β₂ lam (some s) es = .ok (rs, es.length) ∧
-      ndlModel Generated.pyMagic Generated.pyVersion cfg alpha β₁ β₂ lam (some w) es = .ok (rw, es.length) ∧
-      ndlModel Generated.pyMagic Generated.pyVersion cfg alpha β₁ β₂ 0 (some v) es = .ok (rv, es.length) ∧
+    ∃ rs rw rv, ndlCall Generated.pyMagic Generated.pyVersion cfg alpha β₁ β₂ lam (some s) es = .ok (rs, es.length) ∧
+      ndlCall Generated.pyMagic Generated.pyVersion cfg alpha β₁ β₂ lam (some w) es = .ok (rw, es.length) ∧
+      ndlCall Generated.pyMagic Generated.pyVersion cfg alpha β₁ β₂ 0 (some v) es = .ok (rv, es.length) ∧
+      (rs.cues = mergedCues s es ∧ rs.outcomes = mergedOutcomes s es) ∧
+      (rw.cues = mergedCues w es ∧ rw.outcomes = mergedOutcomes w es) ∧
+      (rv.cues = mergedCues v es ∧ rv.outcomes = mergedOutcomes v es) ∧
       ∀ o c, rs.get o c = rw.get o c + rv.get o c :=
-  ndlModel_affine _ _ (by decide) (by decide) cfg alpha β₁ β₂ lam w v s hs es es' hp hcw hcv hcs fw fv fs
+  ndlCall_affine _ _ (by decide) (by decide) cfg alpha β₁ β₂ lam w v s hs es es' hne hp hcw hcv hcs fw fv fs
 
-/-- **proportional to λ from zero, `ndl.ndl`** -/
+/-- **proportional to λ from zero, `ndl.ndl`**: both results carry the names of the
+    file, in the same order -/
 theorem ndl_lambda_homogeneous (cfg : NdlCfg)
-    (alpha β₁ β₂ lam k : R) (es es' : List (Event String String)) (hcfg : CfgOK cfg (countNames es).2.length)
+    (alpha β₁ β₂ lam k : R) (es es' : List (Event String String)) (hne : es ≠ []) (hfile : FileEvents es)
+    (hcfg : CfgOK cfg (countNames es).2.length)
     (hp : applyPolicyAll cfg.policy es = some es') (hfit : Fits32 es) :
-    ∃ a b, ndlModel Generated.pyMagic Generated.pyVersion cfg alpha β₁ β₂ (k * lam) none es = .ok (a, es.length) ∧
-      ndlModel Generated.pyMagic Generated.pyVersion cfg alpha β₁ β₂ lam none es = .ok (b, es.length) ∧
+    ∃ a b, ndlCall Generated.pyMagic Generated.pyVersion cfg alpha β₁ β₂ (k * lam) none es = .ok (a, es.length) ∧
+      ndlCall Generated.pyMagic Generated.pyVersion cfg alpha β₁ β₂ lam none es = .ok (b, es.length) ∧
+      a.cues = (countNames es).1 ∧ a.outcomes = (countNames es).2 ∧ b.cues = a.cues ∧ b.outcomes = a.outcomes ∧
       ∀ o c, a.get o c = k * b.get o c :=
-  ndlModel_lambda_homogeneous _ _ (by decide) (by decide) cfg alpha β₁ β₂ lam k es es' hcfg hp hfit
+  ndlCall_lambda_homogeneous _ _ (by decide) (by decide) cfg alpha β₁ β₂ lam k es es' hne hcfg hp hfit
 
 /-- **α = 0 and β₂ = 0, `ndl.ndl`** (its α is one number): with α = 0 the given
-    weights come back; with β₂ = 0 the row of an outcome that occurs in no event
-    comes back unchanged -/
+    weights come back (under the given labels followed by the new names); with
+    β₂ = 0 the row of an outcome that occurs in no event comes back unchanged.
+    `hndc`, `hndo`: the given labels are duplicate free. -/
 theorem ndl_alpha_beta2_zero (cfg : NdlCfg)
-    (alpha β₁ β₂ lam : R) (w : LW R) (es es' : List (Event String String))
+    (alpha β₁ β₂ lam : R) (w : LW R) (hndc : w.cues.Nodup) (hndo : w.outcomes.Nodup)
+    (es es' : List (Event String String)) (hne : es ≠ []) (hfile : FileEvents es)
     (hcfg : CfgOK cfg (mergedOutcomes w es).length)
     (hp : applyPolicyAll cfg.policy es = some es') (hfit : Fits32With w es) :
-    (∃ r, ndlModel Generated.pyMagic Generated.pyVersion cfg 0 β₁ β₂ lam (some w) es = .ok (r, es.length) ∧
+    (∃ r, ndlCall Generated.pyMagic Generated.pyVersion cfg 0 β₁ β₂ lam (some w) es = .ok (r, es.length) ∧
+      r.cues = mergedCues w es ∧ r.outcomes = mergedOutcomes w es ∧
       ∀ o c, r.get o c = w.get o c) ∧
     (∀ o, (∀ e ∈ es, o ∉ e.outcomes) →
-      ∃ r, ndlModel Generated.pyMagic Generated.pyVersion cfg alpha β₁ 0 lam (some w) es = .ok (r, es.length) ∧
+      ∃ r, ndlCall Generated.pyMagic Generated.pyVersion cfg alpha β₁ 0 lam (some w) es = .ok (r, es.length) ∧
+        r.cues = mergedCues w es ∧ r.outcomes = mergedOutcomes w es ∧
         ∀ c, r.get o c = w.get o c) :=
-  ⟨ndlModel_alpha_zero _ _ (by decide) (by decide) cfg β₁ β₂ lam w es es' hcfg hp hfit,
-    fun o ho => ndlModel_beta2_zero _ _ (by decide) (by decide) cfg alpha β₁ lam w es es' hcfg hp hfit o ho⟩
+  ⟨ndlCall_alpha_zero _ _ (by decide) (by decide) cfg β₁ β₂ lam w es es' hne hcfg hp hfit,
+    fun o ho => ndlCall_beta2_zero _ _ (by decide) (by decide) cfg alpha β₁ lam w es es' hne hcfg hp hfit o ho⟩
+
+/-- **β₂ = 0, sequence form, `ndl.ndl`** (`beta2_zero_seq` lifted): continuing from
+    `w` on the whole file and on the file from which every event NOT containing
+    outcome `o` was removed gives the same row `o`.  The second call needs an
+    event left (`hne`; else it raises `IOError`) and its own legal arguments. -/
+theorem ndl_beta2_zero_seq (cfg : NdlCfg) (alpha β₁ lam : R)
+    (w : LW R) (hndc : w.cues.Nodup) (hndo : w.outcomes.Nodup)
+    (es es' : List (Event String String)) (o : String) (hfile : FileEvents es)
+    (hne : es.filter (fun e => decide (o ∈ e.outcomes)) ≠ [])
+    (hcfg : CfgOK cfg (mergedOutcomes w es).length)
+    (hcfgF : CfgOK cfg (mergedOutcomes w (es.filter (fun e => decide (o ∈ e.outcomes)))).length)
+    (hp : applyPolicyAll cfg.policy es = some es')
+    (hfit : Fits32With w es) (hfitF : Fits32With w (es.filter (fun e => decide (o ∈ e.outcomes)))) :
+    ∃ r rF, ndlCall Generated.pyMagic Generated.pyVersion cfg alpha β₁ 0 lam (some w) es = .ok (r, es.length) ∧
+      ndlCall Generated.pyMagic Generated.pyVersion cfg alpha β₁ 0 lam (some w)
+          (es.filter (fun e => decide (o ∈ e.outcomes)))
+        = .ok (rF, (es.filter (fun e => decide (o ∈ e.outcomes))).length) ∧
+      r.cues = mergedCues w es ∧ r.outcomes = mergedOutcomes w es ∧
+      rF.cues = mergedCues w (es.filter (fun e => decide (o ∈ e.outcomes))) ∧
+      rF.outcomes = mergedOutcomes w (es.filter (fun e => decide (o ∈ e.outcomes))) ∧
+      ∀ c, r.get o c = rF.get o c :=
+  ndlCall_beta2_zero_filter _ _ (by decide) (by decide) cfg alpha β₁ lam w es es' o hne hcfg hcfgF hp hfit hfitF
+
+/-- **the order of cues and of outcomes inside the events is irrelevant, `ndl.ndl`**
+    (`cue_perm` / `event_perm` / `events_perm` lifted; the relation the
+    correspondence run's `cue_shuffle` law checks between two real runs): two
+    event files that agree event by event up to the order inside the events give
+    the same weight at every pair of names; the label lists are permutations of
+    each other (first-occurrence order can differ).  All hypotheses on the
+    first file. -/
+theorem ndl_events_perm (cfg : NdlCfg) (alpha β₁ β₂ lam : R) (es₁ es₂ es₁' : List (Event String String))
+    (h : EventsPerm es₁ es₂) (hne : es₁ ≠ []) (hfile : FileEvents es₁)
+    (hcfg : CfgOK cfg (countNames es₁).2.length)
+    (hp : applyPolicyAll cfg.policy es₁ = some es₁') (hfit : Fits32 es₁) :
+    ∃ a b, ndlCall Generated.pyMagic Generated.pyVersion cfg alpha β₁ β₂ lam none es₁ = .ok (a, es₁.length) ∧
+      ndlCall Generated.pyMagic Generated.pyVersion cfg alpha β₁ β₂ lam none es₂ = .ok (b, es₂.length) ∧
+      a.cues = (countNames es₁).1 ∧ a.outcomes = (countNames es₁).2 ∧
+      b.cues = (countNames es₂).1 ∧ b.outcomes = (countNames es₂).2 ∧
+      a.cues ~ b.cues ∧ a.outcomes ~ b.outcomes ∧
+      ∀ o c, a.get o c = b.get o c :=
+  ndlCall_events_perm _ _ (by decide) (by decide) cfg alpha β₁ β₂ lam es₁ es₂ es₁' h hne hcfg hp hfit
 
 /-! non-vacuity: the affine law on a concrete run in ℤ with a non-zero start -/
 example :
@@ -300,33 +407,210 @@ example :
       · simp [wdAbs, wdRow, alGet, ho])
     _ [⟨["a", "b"], ["x"]⟩, ⟨["b"], ["y"]⟩] (by decide +kernel)
 
-/-- `ndl_lambda_homogeneous` with every hypothesis instantiated: threading, one
-    outcome per job, two events per chunk file, λ = 5 scaled by k = 3 -/
+/-- `dict_row_depends_only` applied: policies `False` vs `True`, the second list
+    renames the other outcome and repeats a cue that `True` removes; row `x` -/
 example :
-    ∃ a b, ndlModel Generated.pyMagic Generated.pyVersion ⟨.keep, .threading, 1, 2⟩ (1 : ℤ) 2 3 (3 * 5) none
-        [⟨["a", "b", "a"], ["x"]⟩, ⟨["b"], ["y"]⟩, ⟨["a"], ["x", "y"]⟩] = .ok (a, 3) ∧
-      ndlModel Generated.pyMagic Generated.pyVersion ⟨.keep, .threading, 1, 2⟩ (1 : ℤ) 2 3 5 none
-        [⟨["a", "b", "a"], ["x"]⟩, ⟨["b"], ["y"]⟩, ⟨["a"], ["x", "y"]⟩] = .ok (b, 3) ∧
+    ∃ A B, dictNdl .keep (fun _ => (1 : ℤ)) 2 3 5 [("x", [("a", 4)])] [⟨["a", "b"], ["x", "y"]⟩, ⟨["b"], ["y"]⟩] = some A ∧
+      dictNdl .dedup (fun _ => (1 : ℤ)) 2 3 5 [("x", [("a", 4)]), ("q", [("b", 9)])]
+        [⟨["a", "b", "a"], ["x", "z"]⟩, ⟨["b"], ["z"]⟩] = some B ∧
+      wdAbs A "x" = wdAbs B "x" :=
+  dict_row_depends_only .keep .dedup _ 2 3 5 _ _ _ _ [⟨["a", "b"], ["x", "y"]⟩, ⟨["b"], ["y"]⟩]
+    [⟨["a", "b"], ["x", "z"]⟩, ⟨["b"], ["z"]⟩] "x" (by decide +kernel) (by decide +kernel)
+    (by funext c; simp [wdAbs, wdRow, alGet]) (by decide +kernel)
+
+/-- `dict_rename_equivariant` applied: strings renamed to numbers -/
+example :
+    ∃ A B, dictNdl .dedup (fun _ => (1 : ℤ)) 2 3 5 [] [⟨[1, 2, 1], [10]⟩, ⟨[2], [11]⟩] = some A ∧
+      dictNdl .dedup (fun _ => (1 : ℤ)) 2 3 5 []
+        ([⟨[1, 2, 1], [10]⟩, ⟨[2], [11]⟩].map (fun e : Event Nat Nat => ⟨e.cues.map (· + 5), e.outcomes.map (· * 2)⟩))
+        = some B ∧
+      ∀ o c, wdAbs B (o * 2) (c + 5) = wdAbs A o c :=
+  dict_rename_equivariant (· + 5) (· * 2) (fun a b h => by simpa using h) (fun a b h => by simpa using h)
+    .dedup (fun _ => (1 : ℤ)) (fun _ => (1 : ℤ)) (fun _ => rfl) 2 3 5 [] []
+    (fun _ _ => by simp [wdAbs, wdRow, alGet]) [⟨[1, 2, 1], [10]⟩, ⟨[2], [11]⟩]
+    [⟨[1, 2], [10]⟩, ⟨[2], [11]⟩] (by decide +kernel)
+
+/-- `dict_lambda_homogeneous`, `dict_transport`, `dict_alpha_beta2_zero`,
+    `dict_events_perm` applied on concrete lists -/
+example :
+    (∃ A B, dictNdl .keep (fun _ => (1 : ℤ)) 2 3 (3 * 5) [] [⟨[1, 2, 1], [10]⟩, ⟨[2], [11]⟩] = some A ∧
+      dictNdl .keep (fun _ => (1 : ℤ)) 2 3 5 [] [⟨[1, 2, 1], [10]⟩, ⟨[2], [11]⟩] = some B ∧
+      ∀ o c, wdAbs A o c = 3 * wdAbs B o c) ∧
+    (∃ A B, dictNdl .dedup (fun _ => (1 : ℤ)) 2 3 5 [] [⟨[1, 2, 1], [10, 11]⟩, ⟨[2], [11]⟩] = some A ∧
+      dictNdl .dedup (fun _ => (1 : ℤ)) 2 3 5 [] [⟨[2, 1, 1], [11, 10]⟩, ⟨[2], [11]⟩] = some B ∧
+      wdAbs A = wdAbs B) :=
+  ⟨dict_lambda_homogeneous .keep _ 2 3 5 3 _ [⟨[1, 2, 1], [10]⟩, ⟨[2], [11]⟩] (by decide +kernel),
+   dict_events_perm .dedup _ 2 3 5 [] _ _ [⟨[1, 2], [10, 11]⟩, ⟨[2], [11]⟩]
+     (List.Forall₂.cons ⟨by decide, by decide⟩ (List.Forall₂.cons ⟨by decide, by decide⟩ List.Forall₂.nil))
+     (by decide +kernel)⟩
+
+/-- `dict_alpha_beta2_zero` applied to a result the model returns (cue 2 has α = 0;
+    outcome 12 occurs in no event) -/
+example (W : WDict Nat Nat ℤ)
+    (h : dictNdl .keep (fun c => if c = 2 then (0 : ℤ) else 1) 2 0 5 [(12, [(2, 7)])] [⟨[1, 2], [10]⟩, ⟨[2], [11]⟩] = some W) :
+    wdAbs W 12 2 = 7 ∧ wdAbs W 12 = wdAbs ([(12, [(2, 7)])] : WDict Nat Nat ℤ) 12 :=
+  ⟨by
+      rw [(dict_alpha_beta2_zero .keep (fun c => if c = 2 then (0 : ℤ) else 1) 2 0 5 [(12, [(2, 7)])]
+        [⟨[1, 2], [10]⟩, ⟨[2], [11]⟩]).1 W h 12 2 (by decide)]
+      decide,
+    (dict_alpha_beta2_zero .keep (fun c => if c = 2 then (0 : ℤ) else 1) 2 0 5 [(12, [(2, 7)])]
+      [⟨[1, 2], [10]⟩, ⟨[2], [11]⟩]).2 W h 12 (by decide)⟩
+
+/-- … and the hypothesis `h` is satisfiable, the result not trivial (`dict_transport`
+    applied: the policy accepted the events) -/
+example :
+    ∃ W, dictNdl .keep (fun c => if c = 2 then (0 : ℤ) else 1) 2 0 5 [(12, [(2, 7)])] [⟨[1, 2], [10]⟩, ⟨[2], [11]⟩] = some W ∧
+      wdAbs W 10 1 ≠ 0 ∧
+      ∃ es', applyPolicyAll .keep [⟨[1, 2], [10]⟩, ⟨[2], [11]⟩] = some es' ∧
+        wdAbs W = rwLearn (fun c => if c = 2 then (0 : ℤ) else 1) 2 0 5 (wdAbs [(12, [(2, 7)])]) es' := by
+  cases h : dictNdl .keep (fun c => if c = 2 then (0 : ℤ) else 1) 2 0 5 [(12, [(2, 7)])] [⟨[1, 2], [10]⟩, ⟨[2], [11]⟩] with
+  | none => exact absurd h (by decide +kernel)
+  | some W =>
+    refine ⟨W, rfl, ?_, dict_transport _ _ _ _ _ _ W _ h⟩
+    have : (dictNdl .keep (fun c => if c = 2 then (0 : ℤ) else 1) 2 0 5 [(12, [(2, 7)])]
+        [⟨[1, 2], [10]⟩, ⟨[2], [11]⟩]).map (fun W => decide (wdAbs W 10 1 ≠ 0)) = some true := by decide +kernel
+    rw [h] at this
+    simpa using this
+
+/-! the `ndl.ndl` laws, every hypothesis instantiated -/
+
+def exE : List (Event String String) := [⟨["a", "b", "a"], ["x"]⟩, ⟨["b"], ["y"]⟩, ⟨["a"], ["x", "y"]⟩]
+/-- (definitional — example data, not a property theorem) -/
+theorem exE_fits : Fits32 exE := ⟨by decide, by decide +kernel, by decide +kernel, by decide⟩
+
+/-- `ndl_lambda_homogeneous`: threading, one outcome per job, two events per chunk
+    file, λ = 5 scaled by k = 3 -/
+example :
+    ∃ a b, ndlCall Generated.pyMagic Generated.pyVersion ⟨.keep, .threading, 1, 2⟩ (1 : ℤ) 2 3 (3 * 5) none exE
+        = .ok (a, 3) ∧
+      ndlCall Generated.pyMagic Generated.pyVersion ⟨.keep, .threading, 1, 2⟩ (1 : ℤ) 2 3 5 none exE = .ok (b, 3) ∧
+      a.cues = (countNames exE).1 ∧ a.outcomes = (countNames exE).2 ∧ b.cues = a.cues ∧ b.outcomes = a.outcomes ∧
       ∀ o c, a.get o c = 3 * b.get o c :=
-  ndl_lambda_homogeneous ⟨.keep, .threading, 1, 2⟩ 1 2 3 5 3 _
-    [⟨["a", "b", "a"], ["x"]⟩, ⟨["b"], ["y"]⟩, ⟨["a"], ["x", "y"]⟩] (by decide +kernel) (by decide +kernel)
-    ⟨by decide, by decide +kernel, by decide +kernel, by decide⟩
+  ndl_lambda_homogeneous ⟨.keep, .threading, 1, 2⟩ 1 2 3 5 3 exE exE (by decide) (by decide) (by decide +kernel)
+    (by decide +kernel) exE_fits
+
+/-- … on ZERO events the law is NOT claimed: the call raises `IOError` (OpenMP) -/
+example : (match ndlCall Generated.pyMagic Generated.pyVersion ⟨.keep, .openmp, 1, 2⟩ (1 : ℤ) 1 1 1 none [] with
+    | .error .io => true | _ => false) = true := by decide +kernel
 
 /-- `ndl_row_depends_only` instantiated: OpenMP vs threading, `True` vs `False`;
     the second file renames / removes OTHER outcomes (`y` → `z`, `w` dropped)
     and repeats a cue that `True` removes: row `x` is the same -/
 example :
-    ∃ a b, ndlModel Generated.pyMagic Generated.pyVersion ⟨.keep, .openmp, 2, 2⟩ (1 : ℤ) 2 3 5 none
+    ∃ a b, ndlCall Generated.pyMagic Generated.pyVersion ⟨.keep, .openmp, 2, 2⟩ (1 : ℤ) 2 3 5 none
         [⟨["a", "b"], ["x", "y"]⟩, ⟨["b"], ["y", "w"]⟩] = .ok (a, 2) ∧
-      ndlModel Generated.pyMagic Generated.pyVersion ⟨.dedup, .threading, 1, 3⟩ (1 : ℤ) 2 3 5 none
+      ndlCall Generated.pyMagic Generated.pyVersion ⟨.dedup, .threading, 1, 3⟩ (1 : ℤ) 2 3 5 none
         [⟨["a", "b", "a"], ["x", "z"]⟩, ⟨["b"], ["z"]⟩] = .ok (b, 2) ∧
+      a.cues = ["a", "b"] ∧ a.outcomes = ["x", "y", "w"] ∧ b.cues = ["a", "b"] ∧ b.outcomes = ["x", "z"] ∧
       ∀ c, a.get "x" c = b.get "x" c :=
   ndl_row_depends_only ⟨.keep, .openmp, 2, 2⟩ ⟨.dedup, .threading, 1, 3⟩ 1 2 3 5 _ _
     [⟨["a", "b"], ["x", "y"]⟩, ⟨["b"], ["y", "w"]⟩]
-    [⟨["a", "b"], ["x", "z"]⟩, ⟨["b"], ["z"]⟩] "x" (by decide +kernel) (by decide +kernel)
+    [⟨["a", "b"], ["x", "z"]⟩, ⟨["b"], ["z"]⟩] "x" (by decide) (by decide) (by decide) (by decide)
+    (by decide +kernel) (by decide +kernel)
     (by decide +kernel) (by decide +kernel)
     ⟨by decide, by decide +kernel, by decide +kernel, by decide⟩
     ⟨by decide, by decide +kernel, by decide +kernel, by decide⟩ (by decide +kernel)
+
+def pf (s : String) : String := "p" ++ s
+/-- (definitional — example data, not a property theorem) -/
+theorem pf_inj : Function.Injective pf := by
+  intro a b h
+  unfold pf at h
+  exact String.append_right_inj "p" |>.mp h
+
+/-- `ndl_rename_equivariant` instantiated (threading, 2 events per file; every name
+    gets the prefix `p`) -/
+example :
+    ∃ a b, ndlCall Generated.pyMagic Generated.pyVersion ⟨.keep, .threading, 1, 2⟩ (1 : ℤ) 2 3 5 none exE = .ok (a, 3) ∧
+      ndlCall Generated.pyMagic Generated.pyVersion ⟨.keep, .threading, 1, 2⟩ (1 : ℤ) 2 3 5 none
+        (exE.map (fun e => ⟨e.cues.map pf, e.outcomes.map pf⟩)) = .ok (b, 3) ∧
+      a.cues = (countNames exE).1 ∧ a.outcomes = (countNames exE).2 ∧
+      b.cues = a.cues.map pf ∧ b.outcomes = a.outcomes.map pf ∧
+      ∀ o c, b.get (pf o) (pf c) = a.get o c :=
+  ndl_rename_equivariant ⟨.keep, .threading, 1, 2⟩ 1 2 3 5 pf pf pf_inj pf_inj exE exE (by decide) (by decide)
+    (by decide +kernel) (by decide +kernel) exE_fits
+
+def wA : LW ℤ := ⟨["x"], ["a"], #[3]⟩
+def vA : LW ℤ := ⟨["x"], ["a"], #[4]⟩
+def sA : LW ℤ := ⟨["x"], ["a"], #[7]⟩
+/-- (definitional — example data, not a property theorem) -/
+theorem hsA : ∀ o c, sA.get o c = wA.get o c + vA.get o c := by
+  intro o c
+  unfold LW.get sA wA vA
+  simp only
+  split <;> simp_all
+
+/-- `ndl_affine` instantiated: `s = w + v` on the labels `x` / `a`, the file brings
+    the new cue `b` and the new outcome `y` (OpenMP, one outcome per job) -/
+example :
+    ∃ rs rw rv, ndlCall Generated.pyMagic Generated.pyVersion ⟨.keep, .openmp, 1, 2⟩ (1 : ℤ) 2 3 5 (some sA) exE
+        = .ok (rs, 3) ∧
+      ndlCall Generated.pyMagic Generated.pyVersion ⟨.keep, .openmp, 1, 2⟩ (1 : ℤ) 2 3 5 (some wA) exE = .ok (rw, 3) ∧
+      ndlCall Generated.pyMagic Generated.pyVersion ⟨.keep, .openmp, 1, 2⟩ (1 : ℤ) 2 3 0 (some vA) exE = .ok (rv, 3) ∧
+      (rs.cues = mergedCues sA exE ∧ rs.outcomes = mergedOutcomes sA exE) ∧
+      (rw.cues = mergedCues wA exE ∧ rw.outcomes = mergedOutcomes wA exE) ∧
+      (rv.cues = mergedCues vA exE ∧ rv.outcomes = mergedOutcomes vA exE) ∧
+      ∀ o c, rs.get o c = rw.get o c + rv.get o c :=
+  ndl_affine ⟨.keep, .openmp, 1, 2⟩ 1 2 3 5 wA vA sA hsA
+    ⟨⟨by decide, by decide⟩, ⟨by decide, by decide⟩, ⟨by decide, by decide⟩⟩ exE exE (by decide) (by decide)
+    (by decide +kernel) (by decide +kernel) (by decide +kernel) (by decide +kernel)
+    ⟨by decide, by decide +kernel, by decide +kernel, by decide⟩
+    ⟨by decide, by decide +kernel, by decide +kernel, by decide⟩
+    ⟨by decide, by decide +kernel, by decide +kernel, by decide⟩
+
+/-- `ndl_alpha_beta2_zero` instantiated, β₂ = 0 clause: the outcome `x` of the given
+    weights is absent from the events (policy `True`, a repeated cue) -/
+example :
+    ∃ r, ndlCall Generated.pyMagic Generated.pyVersion ⟨.dedup, .openmp, 2, 3⟩ (1 : ℤ) 2 0 5 (some wA)
+        [⟨["a", "a"], ["y"]⟩] = .ok (r, 1) ∧
+      r.cues = mergedCues wA [⟨["a", "a"], ["y"]⟩] ∧ r.outcomes = mergedOutcomes wA [⟨["a", "a"], ["y"]⟩] ∧
+      ∀ c, r.get "x" c = wA.get "x" c :=
+  (ndl_alpha_beta2_zero (R := ℤ) ⟨.dedup, .openmp, 2, 3⟩ 1 2 3 5 wA (by decide) (by decide)
+    [⟨["a", "a"], ["y"]⟩] [⟨["a"], ["y"]⟩] (by decide) (by decide)
+    (by decide +kernel) (by decide +kernel) ⟨by decide, by decide +kernel, by decide +kernel, by decide⟩).2 "x" (by decide)
+
+/-- … and the α = 0 clause -/
+example :
+    ∃ r, ndlCall Generated.pyMagic Generated.pyVersion ⟨.dedup, .threading, 2, 3⟩ (0 : ℤ) 2 3 5 (some wA) exE
+        = .ok (r, 3) ∧
+      r.cues = mergedCues wA exE ∧ r.outcomes = mergedOutcomes wA exE ∧ ∀ o c, r.get o c = wA.get o c :=
+  (ndl_alpha_beta2_zero (R := ℤ) ⟨.dedup, .threading, 2, 3⟩ 1 2 3 5 wA (by decide) (by decide)
+    exE [⟨["a", "b"], ["x"]⟩, ⟨["b"], ["y"]⟩, ⟨["a"], ["x", "y"]⟩] (by decide) (by decide)
+    (by decide +kernel) (by decide +kernel) ⟨by decide, by decide +kernel, by decide +kernel, by decide⟩).1
+
+/-- `ndl_beta2_zero_seq` instantiated: row `y` from the whole file `exE` and from
+    the file without its first event (which does not contain `y`) -/
+example :
+    ∃ r rF, ndlCall Generated.pyMagic Generated.pyVersion ⟨.keep, .openmp, 1, 2⟩ (1 : ℤ) 2 0 5 (some wA) exE
+        = .ok (r, 3) ∧
+      ndlCall Generated.pyMagic Generated.pyVersion ⟨.keep, .openmp, 1, 2⟩ (1 : ℤ) 2 0 5 (some wA)
+          (exE.filter (fun e => decide ("y" ∈ e.outcomes)))
+        = .ok (rF, (exE.filter (fun e => decide ("y" ∈ e.outcomes))).length) ∧
+      r.cues = mergedCues wA exE ∧ r.outcomes = mergedOutcomes wA exE ∧
+      rF.cues = mergedCues wA (exE.filter (fun e => decide ("y" ∈ e.outcomes))) ∧
+      rF.outcomes = mergedOutcomes wA (exE.filter (fun e => decide ("y" ∈ e.outcomes))) ∧
+      ∀ c, r.get "y" c = rF.get "y" c :=
+  ndl_beta2_zero_seq ⟨.keep, .openmp, 1, 2⟩ 1 2 5 wA (by decide) (by decide) exE exE "y" (by decide)
+    (by decide +kernel) (by decide +kernel) (by decide +kernel) (by decide +kernel)
+    ⟨by decide, by decide +kernel, by decide +kernel, by decide⟩
+    ⟨by decide +kernel, by decide +kernel, by decide +kernel, by decide +kernel⟩
+
+/-- `ndl_events_perm` instantiated: every event's cues and outcomes reversed
+    (policy `True`; the label ORDER differs: `[a, b]` vs `[a, b]`, `[x, y]` vs
+    `[x, y]` here only by coincidence of first occurrences — `Perm` is what is
+    claimed) -/
+example :
+    ∃ a b, ndlCall Generated.pyMagic Generated.pyVersion ⟨.dedup, .threading, 1, 2⟩ (1 : ℤ) 2 3 5 none exE = .ok (a, 3) ∧
+      ndlCall Generated.pyMagic Generated.pyVersion ⟨.dedup, .threading, 1, 2⟩ (1 : ℤ) 2 3 5 none
+        (exE.map (fun e => ⟨e.cues.reverse, e.outcomes.reverse⟩))
+        = .ok (b, (exE.map (fun e => (⟨e.cues.reverse, e.outcomes.reverse⟩ : Event String String))).length) ∧
+      a.cues = (countNames exE).1 ∧ a.outcomes = (countNames exE).2 ∧
+      b.cues = (countNames (exE.map (fun e => ⟨e.cues.reverse, e.outcomes.reverse⟩))).1 ∧
+      b.outcomes = (countNames (exE.map (fun e => ⟨e.cues.reverse, e.outcomes.reverse⟩))).2 ∧
+      a.cues ~ b.cues ∧ a.outcomes ~ b.outcomes ∧ ∀ o c, a.get o c = b.get o c :=
+  ndl_events_perm ⟨.dedup, .threading, 1, 2⟩ 1 2 3 5 exE _ [⟨["a", "b"], ["x"]⟩, ⟨["b"], ["y"]⟩, ⟨["a"], ["x", "y"]⟩]
+    (EventsPerm.of_map _ (fun e => ⟨List.reverse_perm _, List.reverse_perm _⟩) exE) (by decide) (by decide)
+    (by decide +kernel) (by decide +kernel) exE_fits
 
 /-- the per-cue `alpha_zero_cue` on a concrete run: cue 1 has α = 0 and keeps its
     weight 7 while cue 0 learns -/
